@@ -136,6 +136,42 @@ func (r *NgReader) discard(length int) error {
 	return nil
 }
 
+// ngMaxPrealloc is the size of the largest buffer that is allocated up front just because a length field in the file asks for it.
+const ngMaxPrealloc = 1 << 20
+
+// readData reads length bytes into buf if it is large enough and into a new buffer otherwise.
+// A new buffer larger than ngMaxPrealloc grows while the data arrives, so that a wrong length
+// in a truncated or corrupted file can not cause an allocation out of proportion to the file.
+func (r *NgReader) readData(buf []byte, length int) ([]byte, error) {
+	if buf != nil && cap(buf) >= length {
+		buf = buf[:length]
+		_, err := r.readBytes(buf)
+		return buf, err
+	}
+	size := length
+	if size > ngMaxPrealloc {
+		size = ngMaxPrealloc
+	}
+	buf = make([]byte, size)
+	have := 0
+	for {
+		if _, err := r.readBytes(buf[have:]); err != nil {
+			return buf, err
+		}
+		have = len(buf)
+		if have == length {
+			return buf, nil
+		}
+		size = length
+		if size-have > have {
+			size = 2 * have
+		}
+		grown := make([]byte, size)
+		copy(grown, buf)
+		buf = grown
+	}
+}
+
 // The following functions make the binary.* functions inlineable (except for getUint64, which is too big, but not in any hot path anyway)
 // Compared to storing binary.*Endian in a binary.ByteOrder this shaves off about 20% for (ZeroCopy)ReadPacketData, which is caused by the needed itab lookup + indirect go call
 func (r *NgReader) getUint16(buffer []byte) uint16 {
@@ -703,8 +739,7 @@ func (r *NgReader) ReadPacketDataWithOptions() (data []byte, ci gopacket.Capture
 		ci.AncillaryData = make([]interface{}, 1)
 		ci.AncillaryData[0] = r.ancil[0]
 	}
-	data = make([]byte, r.ci.CaptureLength)
-	if _, err = r.readBytes(data); err != nil {
+	if data, err = r.readData(nil, r.ci.CaptureLength); err != nil {
 		return
 	}
 	r.currentBlock.length -= uint32(r.ci.CaptureLength)
@@ -750,14 +785,16 @@ func (r *NgReader) ZeroCopyReadPacketDataWithOptions() (data []byte, ci gopacket
 		ci.AncillaryData = r.ancil[:]
 	}
 	if cap(r.packetBuf) < ci.CaptureLength {
-		snaplen := int(r.ifaces[ci.InterfaceIndex].SnapLength)
-		if snaplen < ci.CaptureLength {
-			snaplen = ci.CaptureLength
+		// preallocate a buffer for the whole snap length, unless that is larger than what we allocate without seeing data
+		if snaplen := int(r.ifaces[ci.InterfaceIndex].SnapLength); snaplen >= ci.CaptureLength && snaplen <= ngMaxPrealloc {
+			r.packetBuf = make([]byte, snaplen)
 		}
-		r.packetBuf = make([]byte, snaplen)
 	}
-	data = r.packetBuf[:ci.CaptureLength]
-	if _, err = r.readBytes(data); err != nil {
+	data, err = r.readData(r.packetBuf, ci.CaptureLength)
+	if cap(data) > cap(r.packetBuf) {
+		r.packetBuf = data[:cap(data)]
+	}
+	if err != nil {
 		return
 	}
 	r.currentBlock.length -= uint32(r.ci.CaptureLength)
